@@ -753,7 +753,11 @@ func nativeFailed(out, assertID string) bool {
 // engine computed and that no assertion failed (sampled paths are passing paths).
 func compareNative(out string, observes map[string]string, failsAll string) (bool, string) {
 	got := map[string]string{}
+	stoppedAtFailsAll := false
 	for _, line := range strings.Split(out, "\n") {
+		if stoppedAtFailsAll {
+			break
+		}
 		switch {
 		case strings.HasPrefix(line, "VERIF-OBSERVE "):
 			kv := strings.SplitN(strings.TrimPrefix(line, "VERIF-OBSERVE "), "=", 2)
@@ -762,7 +766,12 @@ func compareNative(out string, observes map[string]string, failsAll string) (boo
 			}
 		case strings.HasPrefix(line, "VERIF-ASSERT-FAIL "):
 			if f := strings.Fields(line); failsAll != "" && len(f) >= 2 && f[1] == failsAll {
-				continue // the engine, too, found this assertion failing on every input of the path
+				// the engine, too, found this assertion failing on every input of the path and
+				// stopped there: whatever the native run does afterwards is not compared
+				stoppedAtFailsAll = true
+			}
+			if stoppedAtFailsAll {
+				continue
 			}
 			return false, "native run fails " + line
 		case strings.HasPrefix(line, "VERIF-PANIC"):
@@ -784,7 +793,7 @@ func compareNative(out string, observes map[string]string, failsAll string) (boo
 		}
 	}
 	for k := range got {
-		if _, ok := observes[k]; !ok {
+		if _, ok := observes[k]; !ok && !stoppedAtFailsAll {
 			return false, fmt.Sprintf("native run observed %s which the engine did not", k)
 		}
 	}
